@@ -42,7 +42,7 @@ type algStats struct {
 	Ops, Ceremonies, Batches, SignaturesChecked, SharesChecked, SubsetsChecked                   int
 	C07Schedules, C07Races, C11Scenarios                                                         int
 	CraftedBatches, PartialsChecked, FaultySignerBatches, AwayProposerBatches, SlowReaderBatches int
-	C11Refed                                                                                     int
+	C11Refed, C02StorageFaults                                                                   int
 	C07Exhaustive                                                                                string
 	Configs                                                                                      []string
 	OutcomeHist                                                                                  map[string]int
@@ -787,6 +787,7 @@ func runAlgDiff(outDir string, seed int64, tier string) {
 		a.exhaustiveSchedules(outDir, 3, 2)
 	}
 	a.c11Run(outDir, tier)
+	a.c02FaultRun(outDir, tier)
 	a.ops.Flush()
 	a.obs.Flush()
 	fo.Close()
